@@ -75,6 +75,12 @@ pub mod verif_std {
             #[verifier::external_body]
             fn hash<H: std::hash::Hasher>(&self, state: &mut H) { unimplemented!() }
         }
+        impl Hash {
+            /// the 32 output bytes (nothing is assumed about them here)
+            pub uninterp spec fn bytes(&self) -> Seq<u8>;
+            #[verifier::external_body]
+            pub fn as_bytes(&self) -> (r: &[u8; 32]) ensures r@ == self.bytes() { unimplemented!() }
+        }
         pub uninterp spec fn hash_of(input: Seq<u8>) -> Hash;
         #[verifier::external_body]
         pub broadcast proof fn axiom_hash_injective(a: Seq<u8>, b: Seq<u8>)
